@@ -1040,6 +1040,11 @@ func parseModEntry(part string) (Expr, error) {
 	if strings.HasPrefix(p, "fields(") && strings.HasSuffix(p, ")") {
 		return &ECall{Fun: &EIdent{Name: "fields"}, Args: []Expr{&EIdent{Name: strings.TrimSpace(p[7 : len(p)-1])}}}, nil
 	}
+	if strings.HasPrefix(p, "cells(") && strings.HasSuffix(p, ")") {
+		// cells(T): stand-alone cells of type T (what a *T can point to when it does not
+		// point into a slice or struct)
+		return &ECall{Fun: &EIdent{Name: "cells"}, Args: []Expr{&EIdent{Name: strings.TrimSpace(p[6 : len(p)-1])}}}, nil
+	}
 	return ParseExpr(p)
 }
 
